@@ -154,7 +154,7 @@ theorem valid_failed_length (rung : List TEntry) :
   | nil => rfl
   | cons x xs ih =>
     simp only [List.filter_cons]
-    cases h : x.1.2.isNan <;> simp [h] <;> omega
+    cases h : x.1.2.isNan <;> simp <;> omega
 
 theorem topSel_eq (rung : List TEntry) (n : Nat) (m : Mode) :
     topSel rung n m =
@@ -284,7 +284,7 @@ theorem topList_nodup (rung : List TEntry) (n : Nat) (m : Mode)
     cases hx : x.1.1 with
     | none => simpa [List.filterMap_cons, hx] using ih'
     | some t =>
-      simp only [List.filterMap_cons, id, hx, List.nodup_cons]
+      simp only [List.filterMap_cons, id, List.nodup_cons]
       refine ⟨?_, ih'⟩
       intro hc
       simp only [List.mem_filterMap, List.mem_map, id] at hc
